@@ -278,6 +278,8 @@ structure DBInv (cfg : Cfg) (n : Node) : Prop where
   cache : ∀ w a, (w, a) ∈ n.cache → w % cfg.W = 0 ∧ w + cfg.W ≤ n.chain.length ∧ Good n.chain cfg.W n.floor w a
   snap : ∀ a nx, n.snapshot = some (a, nx) →
     nx ≤ n.chain.length ∧ a.from_ = al cfg.W nx ∧ GoodBelow n.chain cfg.W n.floor a nx
+  /-- the process is wired with the floor-aware initialiser (`--prune-mode`, or nothing pruned) -/
+  nocore : n.coreInit = false
 
 /-- The full invariant: the database part, and the in-memory running filter is initialised and
 is exactly the window of the chain length. -/
@@ -306,17 +308,19 @@ theorem Inv.mk' {cfg : Cfg} {n : Node} (wf : ChainWF n.chain) (bound : n.chain.l
     (cache : ∀ w a, (w, a) ∈ n.cache → w % cfg.W = 0 ∧ w + cfg.W ≤ n.chain.length ∧ Good n.chain cfg.W n.floor w a)
     (snap : ∀ a nx, n.snapshot = some (a, nx) →
       nx ≤ n.chain.length ∧ a.from_ = al cfg.W nx ∧ GoodBelow n.chain cfg.W n.floor a nx)
-    (hfl : n.hfloor ≤ n.floor) (live : n.initErr = none) : Inv cfg n :=
-  ⟨⟨wf, bound, floor_lt, hfl, idx.pers_keys, idx.pers_avail, cache, snap⟩, live, next_eq, idx.from_eq, idx.running⟩
+    (hfl : n.hfloor ≤ n.floor) (live : n.initErr = none) (nocore : n.coreInit = false) : Inv cfg n :=
+  ⟨⟨wf, bound, floor_lt, hfl, idx.pers_keys, idx.pers_avail, cache, snap, nocore⟩, live, next_eq, idx.from_eq, idx.running⟩
 
 theorem effFloor_eq {cfg : Cfg} {n : Node} (h : DBInv cfg n) : effFloor n = n.floor := by
-  unfold effFloor
+  unfold effFloor dbFloor
+  rw [h.nocore]
+  simp only [Bool.false_eq_true, if_false]
   rcases h.floor_lt with h' | h'
   · rw [h']; split <;> rfl
   · simp [h']
 
 theorem inv_init (cfg : Cfg) (hW : 1 ≤ cfg.W) : Inv cfg Node.init := by
-  refine Inv.mk' ?_ (by simp [Node.init]) rfl (Or.inl rfl) ⟨?_, ?_, ?_, ?_⟩ ?_ ?_ (Nat.le_refl _) rfl
+  refine Inv.mk' ?_ (by simp [Node.init]) rfl (Or.inl rfl) ⟨?_, ?_, ?_, ?_⟩ ?_ ?_ (Nat.le_refl _) rfl rfl
   · intro blk h; simp [Node.init] at h
   · simp [Node.init, Agg.fresh, al]
   · intro b _ _ _ _ h3 _ _ _; simp [Node.init] at h3
@@ -357,7 +361,7 @@ theorem store_inv (cfg : Cfg) (hW : 1 ≤ cfg.W) (n : Node) (blk : Block) (h : I
     n.running n.persisted blk hidx (by omega) hget
   unfold store
   simp only [h.live, hrun]
-  refine ⟨by first | rfl | trivial, Inv.mk' ?_ ?_ ?_ ?_ ?_ ?_ ?_ h.db.hfloor_le rfl⟩
+  refine ⟨by first | rfl | trivial, Inv.mk' ?_ ?_ ?_ ?_ ?_ ?_ ?_ h.db.hfloor_le rfl h.db.nocore⟩
   · intro x hx
     simp only [List.mem_append, List.mem_singleton] at hx
     rcases hx with hx | hx
@@ -480,7 +484,7 @@ theorem revert_inv (cfg : Cfg) (hW : 1 ≤ cfg.W) (n : Node) (h : Inv cfg n) (hn
       · exact h'
       · exact absurd hm h'
     simp only [hfp, if_true]
-    refine ⟨by first | rfl | trivial, Inv.mk' (chainWF_dropLast _ h.wf) (by simp; omega) (by simp [hcur]) hfloorD ⟨?_, ?_, ?_, ?_⟩ ?_ hsnap hhf rfl⟩
+    refine ⟨by first | rfl | trivial, Inv.mk' (chainWF_dropLast _ h.wf) (by simp; omega) (by simp [hcur]) hfloorD ⟨?_, ?_, ?_, ?_⟩ ?_ hsnap hhf rfl h.db.nocore⟩
     · show prev.from_ = al cfg.W n.chain.dropLast.length
       rw [hlenD, al_pred_cross cfg.W _ hW hm hlen, hp1]
     · intro b x h1 h2 hfb h3 hb it hit
@@ -535,7 +539,7 @@ theorem revert_inv (cfg : Cfg) (hW : 1 ≤ cfg.W) (n : Node) (h : Inv cfg n) (hn
       · exfalso
         have : n.chain.length = w + cfg.W := by omega
         rw [this, Nat.add_mod_right] at hm; exact hm hw
-    refine ⟨by first | rfl | trivial, Inv.mk' (chainWF_dropLast _ h.wf) (by simp; omega) (by simp [hcur]) hfloorD ⟨?_, ?_, ?_, ?_⟩ ?_ hsnap hhf rfl⟩
+    refine ⟨by first | rfl | trivial, Inv.mk' (chainWF_dropLast _ h.wf) (by simp; omega) (by simp [hcur]) hfloorD ⟨?_, ?_, ?_, ?_⟩ ?_ hsnap hhf rfl h.db.nocore⟩
     · show n.running.from_ = al cfg.W n.chain.dropLast.length
       rw [hlenD, al_pred_same cfg.W _ hW hm, hfrom]
     · intro b x h1 h2 hfb h3 hb it hit
@@ -561,7 +565,7 @@ theorem revert_inv (cfg : Cfg) (hW : 1 ≤ cfg.W) (n : Node) (h : Inv cfg n) (hn
 theorem snap_inv (cfg : Cfg) (n : Node) (h : Inv cfg n) : (snap n).2 = none ∧ Inv cfg (snap n).1 := by
   unfold snap
   simp only [h.live]
-  refine ⟨by first | rfl | trivial, Inv.mk' h.wf h.bound h.next_eq h.floor_lt h.idx h.cache ?_ h.db.hfloor_le rfl⟩
+  refine ⟨by first | rfl | trivial, Inv.mk' h.wf h.bound h.next_eq h.floor_lt h.idx h.cache ?_ h.db.hfloor_le rfl h.db.nocore⟩
   intro a nx hs
   simp only [Option.some.injEq, Prod.mk.injEq] at hs
   obtain ⟨rfl, rfl⟩ := hs
@@ -579,7 +583,7 @@ theorem prune_dbinv (cfg : Cfg) (_hW : 1 ≤ cfg.W) (n : Node) (k : Nat) (h : DB
     obtain ⟨⟨_, hk1⟩, hk2⟩ := hc
     have hmono : n.floor ≤ k := by omega
     have halk : al cfg.W n.floor ≤ al cfg.W k := al_mono _ _ _ hmono
-    refine ⟨h.wf, h.bound, Or.inr hk2, ?_, ?_, ?_, ?_, ?_⟩
+    refine ⟨h.wf, h.bound, Or.inr hk2, ?_, ?_, ?_, ?_, ?_, h.nocore⟩
     · show max n.hfloor (k - blockHashLag) ≤ k
       have := h.hfloor_le
       exact Nat.max_le.mpr ⟨by omega, Nat.sub_le _ _⟩
@@ -699,7 +703,7 @@ theorem query_node (cfg : Cfg) (n : Node) (f : Filter) (fromB toB : Nat) (tok : 
 
 theorem query_dbinv (cfg : Cfg) (n : Node) (f : Filter) (fromB toB : Nat) (tok : Option Token) (chunk limit : Nat)
     (h : DBInv cfg n) : DBInv cfg (query cfg n f fromB toB tok chunk limit).1 := by
-  refine ⟨h.wf, h.bound, h.floor_lt, h.hfloor_le, h.pers_keys, h.pers_avail, ?_, h.snap⟩
+  refine ⟨h.wf, h.bound, h.floor_lt, h.hfloor_le, h.pers_keys, h.pers_avail, ?_, h.snap, h.nocore⟩
   intro w a hm
   rcases events_cacheFrom cfg n f fromB toB tok chunk limit (w, a) hm with h' | h'
   · exact h.cache w a h'
@@ -962,7 +966,7 @@ theorem init_inv (cfg : Cfg) (n : Node) (h : DBInv cfg n) (r : Agg) (p c : WinMa
     (hidx : IdxInv cfg.W n.chain n.floor n.chain.length n.chain.length r p)
     (hc : ∀ w a, (w, a) ∈ c → (w, a) ∈ n.cache) :
     Inv cfg { n with running := r, next := n.chain.length, persisted := p, cache := c, initErr := none } :=
-  Inv.mk' h.wf h.bound rfl h.floor_lt hidx (fun w a hm => h.cache w a (hc w a hm)) h.snap h.hfloor_le rfl
+  Inv.mk' h.wf h.bound rfl h.floor_lt hidx (fun w a hm => h.cache w a (hc w a hm)) h.snap h.hfloor_le rfl h.nocore
 
 theorem restart_inv' (cfg : Cfg) (hW : 1 ≤ cfg.W) (n : Node) (h : DBInv cfg n) :
     (restart cfg n).2 = none ∧ Inv cfg (restart cfg n).1 := by
@@ -992,7 +996,7 @@ theorem crash_in_init_dbinv (cfg : Cfg) (hW : 1 ≤ cfg.W) (n : Node) (h : DBInv
   obtain ⟨r', j', p', h1, _, _, h4, h5⟩ := initUpTo_spec cfg hW n h k
   rw [hk] at h1
   cases h1
-  refine ⟨h.wf, h.bound, h.floor_lt, h.hfloor_le, h4.pers_keys, ?_, h.cache, h.snap⟩
+  refine ⟨h.wf, h.bound, h.floor_lt, h.hfloor_le, h4.pers_keys, ?_, h.cache, h.snap, h.nocore⟩
   intro w hw hfw hle
   obtain ⟨a, ha⟩ := h.pers_avail w hw hfw hle
   have := h5 w (by rw [ha]; rfl)
@@ -1021,8 +1025,60 @@ def Weak (cfg : Cfg) (n : Node) : Prop := DBInv cfg n ∧ (n.initErr = none → 
 
 theorem weak_of_inv {cfg : Cfg} {n : Node} (h : Inv cfg n) : Weak cfg n := ⟨h.db, fun _ => h⟩
 
-theorem step_weak (cfg : Cfg) (hW : 1 ≤ cfg.W) (n : Node) (op : Op) (h : Weak cfg n) (hok : StepOK cfg n op) :
-    Weak cfg (step cfg n op) := by
+/-- The step on a node whose initialisation state is settled (what `step` does after `wake`). -/
+def stepR (cfg : Cfg) (n : Node) : Op → Node
+  | .store blk => (store cfg n blk).1
+  | .revert => (revert cfg n).1
+  | .snap => (snap n).1
+  | .query f a b t c l => (query cfg n f a b t c l).1
+  | op => step cfg n op
+
+theorem reinit_fields (cfg : Cfg) (n : Node) :
+    (reinit cfg n).chain = n.chain ∧ (reinit cfg n).floor = n.floor ∧ (reinit cfg n).hfloor = n.hfloor ∧
+    (reinit cfg n).cache = n.cache ∧ (reinit cfg n).snapshot = n.snapshot ∧ (reinit cfg n).coreInit = n.coreInit := by
+  unfold reinit
+  split <;> exact ⟨rfl, rfl, rfl, rfl, rfl, rfl⟩
+
+theorem wake_fields (cfg : Cfg) (n : Node) :
+    (wake cfg n).chain = n.chain ∧ (wake cfg n).floor = n.floor ∧ (wake cfg n).hfloor = n.hfloor ∧
+    (wake cfg n).cache = n.cache ∧ (wake cfg n).snapshot = n.snapshot ∧ (wake cfg n).coreInit = n.coreInit := by
+  unfold wake
+  split
+  · exact ⟨rfl, rfl, rfl, rfl, rfl, rfl⟩
+  · split
+    · exact reinit_fields cfg n
+    · exact ⟨rfl, rfl, rfl, rfl, rfl, rfl⟩
+
+theorem wake_weak (cfg : Cfg) (hW : 1 ≤ cfg.W) (n : Node) (h : Weak cfg n) : Weak cfg (wake cfg n) := by
+  unfold wake
+  split
+  · exact h
+  · split
+    · exact weak_of_inv (reinit_inv' cfg hW n h.1)
+    · exact h
+
+/-- With the repair c8ac4a7 the filter is initialised after `wake` whenever the database is sound. -/
+theorem wake_inv (cfg : Cfg) (hW : 1 ≤ cfg.W) (hfix : cfg.fixInit = true) (n : Node) (h : Weak cfg n) :
+    Inv cfg (wake cfg n) := by
+  unfold wake
+  split
+  · rename_i hn; exact h.2 hn
+  · simp only [hfix, if_true]; exact reinit_inv' cfg hW n h.1
+
+theorem wake_stepOK (cfg : Cfg) (n : Node) (op : Op) (hok : StepOK cfg n op) : StepOK cfg (wake cfg n) op := by
+  obtain ⟨h1, h2, _, h4, h5, _⟩ := wake_fields cfg n
+  cases op <;> try trivial
+  · exact ⟨hok.1, by rw [h1]; exact hok.2⟩
+  · refine ⟨?_, ?_⟩
+    · unfold RevertGuard at *; rw [h1, h4, h5]; exact hok.1
+    · unfold RevertAboveFloor at *; rw [h1, h2]; exact hok.2
+
+theorem step_eq_stepR (cfg : Cfg) (n : Node) (op : Op) :
+    step cfg n op = stepR cfg (wake cfg n) op ∨ step cfg n op = stepR cfg n op := by
+  cases op <;> first | (left; rfl) | (right; rfl)
+
+theorem stepR_weak (cfg : Cfg) (hW : 1 ≤ cfg.W) (n : Node) (op : Op) (h : Weak cfg n) (hok : StepOK cfg n op) :
+    Weak cfg (stepR cfg n op) := by
   obtain ⟨hdb, hinv⟩ := h
   cases hi : n.initErr with
   | none =>
@@ -1032,7 +1088,7 @@ theorem step_weak (cfg : Cfg) (hW : 1 ≤ cfg.W) (n : Node) (op : Op) (h : Weak 
     | revert =>
       by_cases hne : n.chain = []
       · have : (revert cfg n).1 = reinit cfg n := by simp [revert, hne]
-        simp only [step, this]; exact weak_of_inv (reinit_inv cfg hW n h)
+        simp only [stepR, this]; exact weak_of_inv (reinit_inv cfg hW n h)
       · exact weak_of_inv (revert_inv cfg hW n h hne hok.1 hok.2).2
     | snap => exact weak_of_inv (snap_inv cfg n h).2
     | restart => exact weak_of_inv (restart_inv cfg hW n h).2
@@ -1041,11 +1097,11 @@ theorem step_weak (cfg : Cfg) (hW : 1 ≤ cfg.W) (n : Node) (op : Op) (h : Weak 
     | storeFail blk => exact weak_of_inv (reinit_inv cfg hW n h)
     | revertFail => exact weak_of_inv (reinit_inv cfg hW n h)
     | restartFault =>
-      refine ⟨⟨hdb.wf, hdb.bound, hdb.floor_lt, hdb.hfloor_le, hdb.pers_keys, hdb.pers_avail, ?_, hdb.snap⟩, ?_⟩
-      · intro w a hm; simp [step] at hm
-      · intro hn; simp [step] at hn
+      refine ⟨⟨hdb.wf, hdb.bound, hdb.floor_lt, hdb.hfloor_le, hdb.pers_keys, hdb.pers_avail, ?_, hdb.snap, hdb.nocore⟩, ?_⟩
+      · intro w a hm; simp [stepR, step] at hm
+      · intro hn; simp [stepR, step] at hn
     | restartCrash k =>
-      simp only [step]
+      simp only [stepR, step]
       split
       · rename_i r j p hk
         exact weak_of_inv (restart_inv' cfg hW _ (crash_in_init_dbinv cfg hW n hdb k r j p hk)).2
@@ -1054,34 +1110,40 @@ theorem step_weak (cfg : Cfg) (hW : 1 ≤ cfg.W) (n : Node) (op : Op) (h : Weak 
     cases op with
     | store blk =>
       have : (store cfg n blk).1 = reinit cfg n := by simp [store, hi]
-      simp only [step, this]; exact weak_of_inv (reinit_inv' cfg hW n hdb)
+      simp only [stepR, this]; exact weak_of_inv (reinit_inv' cfg hW n hdb)
     | revert =>
       have : (revert cfg n).1 = reinit cfg n := by
         unfold revert; simp only [hi]; split <;> (try rfl); split <;> rfl
-      simp only [step, this]; exact weak_of_inv (reinit_inv' cfg hW n hdb)
+      simp only [stepR, this]; exact weak_of_inv (reinit_inv' cfg hW n hdb)
     | snap =>
       have : (snap n).1 = n := by simp [snap, hi]
-      simp only [step, this]; exact ⟨hdb, fun hn => by rw [hi] at hn; cases hn⟩
+      simp only [stepR, this]; exact ⟨hdb, fun hn => by rw [hi] at hn; cases hn⟩
     | restart => exact weak_of_inv (restart_inv' cfg hW n hdb).2
     | query f a b t c l =>
       refine ⟨query_dbinv cfg n f a b t c l hdb, fun hn => ?_⟩
       have : (query cfg n f a b t c l).1.initErr = n.initErr := rfl
-      simp only [step] at hn; rw [this, hi] at hn; cases hn
+      simp only [stepR, step] at hn; rw [this, hi] at hn; cases hn
     | prune k =>
       refine ⟨prune_dbinv cfg hW n k hdb, fun hn => ?_⟩
-      simp only [step] at hn; rw [(prune_mem cfg n k).2.2.2.1, hi] at hn; cases hn
+      simp only [stepR, step] at hn; rw [(prune_mem cfg n k).2.2.2.1, hi] at hn; cases hn
     | storeFail blk => exact weak_of_inv (reinit_inv' cfg hW n hdb)
     | revertFail => exact weak_of_inv (reinit_inv' cfg hW n hdb)
     | restartFault =>
-      refine ⟨⟨hdb.wf, hdb.bound, hdb.floor_lt, hdb.hfloor_le, hdb.pers_keys, hdb.pers_avail, ?_, hdb.snap⟩, ?_⟩
-      · intro w a hm; simp [step] at hm
-      · intro hn; simp [step] at hn
+      refine ⟨⟨hdb.wf, hdb.bound, hdb.floor_lt, hdb.hfloor_le, hdb.pers_keys, hdb.pers_avail, ?_, hdb.snap, hdb.nocore⟩, ?_⟩
+      · intro w a hm; simp [stepR, step] at hm
+      · intro hn; simp [stepR, step] at hn
     | restartCrash k =>
-      simp only [step]
+      simp only [stepR, step]
       split
       · rename_i r j p hk
         exact weak_of_inv (restart_inv' cfg hW _ (crash_in_init_dbinv cfg hW n hdb k r j p hk)).2
       · exact weak_of_inv (restart_inv' cfg hW n hdb).2
+
+theorem step_weak (cfg : Cfg) (hW : 1 ≤ cfg.W) (n : Node) (op : Op) (h : Weak cfg n) (hok : StepOK cfg n op) :
+    Weak cfg (step cfg n op) := by
+  rcases step_eq_stepR cfg n op with he | he <;> rw [he]
+  · exact stepR_weak cfg hW _ op (wake_weak cfg hW n h) (wake_stepOK cfg n op hok)
+  · exact stepR_weak cfg hW n op h hok
 
 theorem run_weak (cfg : Cfg) (hW : 1 ≤ cfg.W) (ops : List Op) : ∀ (n : Node), Weak cfg n → HistOK cfg n ops →
     Weak cfg (run cfg n ops) := by
